@@ -71,7 +71,7 @@ func modelWalkItem(fv reflect.Value, fn func(p reflect.Value)) {
 
 // allStructs visits every struct with recipient lists reachable through any field (pointer or value form).
 func allStructs(v reflect.Value, fn func(s reflect.Value), depth int) {
-	if depth > 12 {
+	if depth > 4000 {
 		return
 	}
 	switch v.Kind() {
@@ -346,7 +346,7 @@ func init() {
 	Register(&Prop{
 		ID: "C11",
 		Rule: "model: delete bto/bcc on the value and on every object embedded by pointer in audience, attachment, icon, image, context, generator, attributedTo, preview, tag (and object, actor, target under an Activity), recursively and through lists; everything else unchanged. Every reachable struct gets marked bto/bcc plants (on-walk / off-walk sentinels); after Clean() the canonical tree must equal the model's, and neither the JSON nor the gob bytes may contain an on-walk sentinel. " +
-			"Exhaustive layer: every type with Clean() x every item-valued property (walked and not walked) x depth 1-3 x {single pointer, list member, value form}; random layer: seeded nested values (depth 2 quick / 3 thorough, p=0.35); distinct = value fingerprint; non-trivial = plants below the top level",
+			"Exhaustive layer: every type with Clean() x every item-valued property (walked and not walked) x depth 1-3 x {single pointer, list member, value form}; chains 8, 20, 40 and 70 levels deep through single items and through lists; random layer: seeded nested values (depth 2 quick / 3 thorough, p=0.35); distinct = value fingerprint; non-trivial = plants below the top level",
 		Layers: func(tier string) []Layer {
 			return []Layer{
 				{Name: "chains", N: len(allCleanChains), Exhaustive: true, Run: func(c *Ctx, idx int) {
@@ -355,6 +355,20 @@ func init() {
 					label := fmt.Sprintf("%s.%s %s depth %d via %s", cc.Kind.Name, cc.First, cc.Form, cc.Depth, cc.Inner)
 					c.Count("first-hop:"+cc.First, 1)
 					runClean(c, x, label, true)
+				}},
+				{Name: "deep-chains", N: len(cleanKinds) * 4 * 2, Exhaustive: true, Run: func(c *Ctx, idx int) {
+					// the walk has no depth bound: private recipients 8 to 70 levels down the walked properties must go too
+					k := cleanKinds[idx%len(cleanKinds)]
+					depth := []int{8, 20, 40, 70}[(idx/len(cleanKinds))%4]
+					form := []string{"single", "list"}[idx/(len(cleanKinds)*4)]
+					first := walkedFields[idx%len(walkedFields)]
+					if f, ok := k.FieldByTerm(strings.ToLower(first[:1]) + first[1:]); !ok || (f.Type == vmodel.IcT && form == "single") {
+						first, form = "Tag", "list"
+					}
+					cc := cleanChain{k, first, form, depth, []string{"Object", "Actor", "Activity", "Place"}[idx%4]}
+					x := buildChain(cc, idx)
+					c.Count("deep-chains", 1)
+					runClean(c, x, fmt.Sprintf("%s.%s %s depth %d via %s", k.Name, first, form, depth, cc.Inner), true)
 				}},
 				{Name: "top-level-list", N: tierN(tier, 2000, 20000), Run: func(c *Ctx, idx int) {
 					// ItemCollection offers Clean() too: every member embedded by pointer is cleaned, value-form members cannot be
